@@ -182,12 +182,17 @@ def handle(cmd, argv, stdin, st, fault):
         jid = new_job(st, "done", deps, m.group(1) if m else "?", stdin, argv)
         return "Job <%s> is submitted to default queue <normal>.\n" % jid, "", 0
     if cmd == "bjobs":
-        jid = argv[-1]
-        j = jobs.get(jid)
-        if j is None:
-            return "", "Job <%s> is not found\n" % jid, 0
-        code = j.get("code") if j.get("code") is not None else LSF.get(j["state"])
-        return (code or "") + "\n", "", 0
+        # bjobs -noheader -o stat ID…: one line per job LSF still knows, in argument order; "is not found" on stderr for the rest
+        ids = [a for a in argv if a.isdigit()] or [argv[-1]]
+        out, err = "", ""
+        for jid in ids:
+            j = jobs.get(jid)
+            if j is None:
+                err += "Job <%s> is not found\n" % jid
+                continue
+            code = j.get("code") if j.get("code") is not None else LSF.get(j["state"])
+            out += (code or "") + "\n"
+        return out, err, 0
     return "", "%s: unknown fake command\n" % cmd, 2
 
 
